@@ -9,6 +9,6 @@ func init() {
 		assumptions:   []string{"the reference encoders (Go standard library, x/image/bmp, system bzip2 and xz) emit valid files", "formats without an independent local encoder (lzip, webp, qoi, jpeg exactness...) are outside this property as stated"},
 		minNontrivial: 500,
 		quick:         tier{jobs: []job{{name: "roundtrip", run: "^TestProp$", shards: 16, checks: 120, timeout: 25 * time.Minute}}},
-		thorough:      tier{jobs: []job{{name: "roundtrip", run: "^TestProp$", shards: 16, checks: 12000, timeout: 120 * time.Minute}}},
+		thorough:      tier{jobs: []job{{name: "roundtrip", run: "^TestProp$", shards: 16, checks: 8000, timeout: 120 * time.Minute}}},
 	})
 }
